@@ -144,6 +144,7 @@ def run(ctx):
     after_rejection(ctx)
     downgraded_context(ctx)
     any_port(ctx)
+    auth_failure_no_fallback(ctx)
 
 
 def pick(alts, k):
@@ -438,6 +439,68 @@ def any_port(ctx):
             if got["wire"] is not None and marker in got["wire"]:
                 ctx.violation("a request on a connection requested with authentication goes out in clear", inp, hx(got["wire"])[:100], "sealed")
                 return
+
+
+def auth_failure_no_fallback(ctx):
+    """when the security context for the GetKey connection cannot be established — no usable credential, the mechanism refuses the peer's token,
+    the logon is rejected (pyspnego raises a SpnegoError when the provider is created or during a leg of the handshake) — the call FAILS.
+    It does not fall back to a connection without authentication, whose replies anyone on the path can write: against a DC that would answer
+    an unauthenticated GetKey, no bind without a security trailer and no cleartext request reaches the ISD_KEY endpoint, and no key comes back
+    (_sync_get_key and _async_get_key against the reference DC)"""
+    import spnego.exceptions as se
+    import dpapi_ng, dpapi_ng._client as c, dpapi_ng._rpc._client as rc
+    import clientsim, refdc, refserver
+    from props import c17
+    rec = clientsim.standard_roots(real=True)[0]
+    sd = dpapi_ng._blob.ProtectionDescriptor.parse("S-1-5-21-1-2-3-1104").get_target_sd()
+    now = (361, 5, 7)
+    for exc in (se.InvalidTokenError, se.NoCredentialError):
+        for fail_at in ("create", "leg 1", "leg 2"):
+            for use_async in (False, True):
+                ks = refdc.KeyServer(now=now)
+                ks.add_root(rec)
+                dc = refserver.ReferenceDC(ks, require_privacy=False, acceptor_factory=lambda: refserver.ToyAcceptor(legs=2, header_len=16, support_header_sign=True))
+                out = {"key": None, "err": None}
+                with c17.online_world(dc, 2, 16, clientsim.time_ns_for(*now), ctx.rng, False):
+                    scripted = rc.AuthenticationProvider
+
+                    def failing(username, password, hostname, protocol):
+                        if fail_at == "create":
+                            raise exc(context_msg="scripted: no security context")
+                        p = scripted(username, password, hostname, protocol)
+                        real_step, n = p.step, [0]
+
+                        def step(in_token=None):
+                            n[0] += 1
+                            if n[0] == int(fail_at[-1]):
+                                raise exc(context_msg="scripted: the mechanism refused")
+                            return real_step(in_token)
+                        p.step = step
+                        return p
+                    rc.AuthenticationProvider = failing
+                    try:
+                        if use_async:
+                            out["key"] = asyncio.run(asyncio.wait_for(c._async_get_key("dc01.domain.test", sd, None, -1, -1, -1, "u", "p", "ntlm"), 5))
+                        else:
+                            out["key"] = c._sync_get_key("dc01.domain.test", sd, None, -1, -1, -1, "u", "p", "ntlm")
+                    except Exception as e:  # noqa  (failing is the right outcome)
+                        out["err"] = canon_exc(e)
+                    finally:
+                        rc.AuthenticationProvider = scripted
+                ctx.count("auth_failure_no_fallback:" + fail_at)
+                inp = {"scenario": "auth_failure_no_fallback", "raised": exc.__name__, "at": fail_at, "async": use_async}
+                isd = [k for k in dc.connections if k.port != 135]
+                unauth = [(k.port, r_["type"]) for k in isd for r_ in k.pdus if r_["type"] in (0, 11, 14) and not r_["auth_len"]]
+                if out["key"] is not None:
+                    ctx.violation("a group key is returned although the security context could not be established", inp, "a key envelope", "an error")
+                    return
+                if unauth:
+                    ctx.violation("after the security context failed, the client talks to the ISD_KEY endpoint without authentication", inp,
+                                  f"unauthenticated PDUs (port, type) {unauth[:4]}", "an error and no unauthenticated bind / request")
+                    return
+                if out["err"] is None:
+                    ctx.violation("no error although the security context could not be established", inp, "no error", "an error")
+                    return
 
 
 def real_ntlm(ctx):
